@@ -250,6 +250,48 @@ fn phase1(
                 json!({"fen": fen, "move": [f, t, p], "expected": exd.describe(), "allowed_ep": allowed, "observed": pn.describe()}),
             );
         }
+        // derived state of the successor: spec-computed checkers / pinned men, and the same position built afresh
+        if pn == ex && ep_ok && (has(cfg, "C03") || has(cfg, "C08")) {
+            if has(cfg, "C03") && mv.as_array().unwrap().len() >= 8 {
+                let want_chk = set_of(&mv[6]);
+                let want_pin = set_of(&mv[7]);
+                let got_chk = bb_squares(*n1.checkers());
+                let got_pin = bb_squares(*n1.pinned() & *n1.color_combined(n1.side_to_move()));
+                if got_chk != want_chk {
+                    rep.violation("C03", "successor_checkers_wrong", json!({"fen": fen, "move": [f, t, p], "expected": want_chk, "observed": got_chk}));
+                }
+                if got_pin != want_pin {
+                    rep.violation("C03", "successor_pinned_wrong", json!({"fen": fen, "move": [f, t, p], "expected": want_pin, "observed": got_pin}));
+                }
+            }
+            match Board::try_from(&pos_to_builder(&ex)) {
+                Ok(fresh) => {
+                    if has(cfg, "C03") && fresh != n1 {
+                        rep.violation(
+                            "C03",
+                            "successor_differs_from_fresh_construction",
+                            json!({"fen": fen, "move": [f, t, p], "successor": ex.describe(),
+                                   "checkers": [bb_squares(*n1.checkers()), bb_squares(*fresh.checkers())],
+                                   "pinned": [bb_squares(*n1.pinned()), bb_squares(*fresh.pinned())],
+                                   "hash": [n1.get_hash().to_string(), fresh.get_hash().to_string()]}),
+                        );
+                    }
+                    if has(cfg, "C08") && fresh.get_hash() != n1.get_hash() {
+                        rep.violation(
+                            "C08",
+                            "successor_hash_differs_from_fresh_construction",
+                            json!({"fen": fen, "move": [f, t, p], "successor": ex.describe(),
+                                   "hash": [n1.get_hash().to_string(), fresh.get_hash().to_string()]}),
+                        );
+                    }
+                }
+                Err(_) => {
+                    if has(cfg, "C03") {
+                        rep.violation("C03", "successor_not_constructible", json!({"fen": fen, "move": [f, t, p], "successor": ex.describe()}));
+                    }
+                }
+            }
+        }
         if has(cfg, "C05") {
             let mn = [n1.color_combined(Color::White).popcnt(), n1.color_combined(Color::Black).popcnt()];
             let pw = [
